@@ -61,12 +61,18 @@ def main():
                 break
         need = (m.get('needs_to_manifest') or '').strip().splitlines()
         summary = m.get('summary') or ''
-        rows.append((os.path.basename(d), m['property'], 'yes' if m.get('confirmed') else 'NO', m['check']['verdict'], mech,
+        now = m['check']['verdict']
+        if m.get('disposition'):
+            # a change the demonstration distinguishes but which, on reading the statement again, does not break it
+            now = 'not judged: ' + m['disposition']
+        rows.append((os.path.basename(d), m['property'], 'yes' if m.get('confirmed') else 'NO', now, mech,
                      m.get('first_result', ''), summary))
     out.append('\n**3. Independently seeded changes** (`seeded/<id>/`, written by sub-agents from the property text only): '
                '%d confirmed, %d caught by the quick check as committed. "first run" is the verdict of the check as it stood '
-               '*before* it saw the change; where that was a miss the check was strengthened (7.1).\n' % (
-                   sum(1 for r in rows if r[2] == 'yes'), sum(1 for r in rows if r[3] == 'caught')))
+               '*before* it saw the change; where that was a miss the check was strengthened (7.1). %d submitted change(s) '
+               'were, on reading the statements again, judged not to break them and are deliberately not flagged (7.1).\n' % (
+                   sum(1 for r in rows if r[2] == 'yes'), sum(1 for r in rows if r[3] == 'caught'),
+                   sum(1 for r in rows if r[3].startswith('not judged'))))
     out.append('| Id | Check | What the change does / what it needs to manifest | first run | now | Deciding monitor |')
     out.append('|---|---|---|---|---|---|')
     for r in rows:
